@@ -174,12 +174,14 @@ func (loader *Loader) loadFromDataWithPathInternal(data []byte, location *url.UR
 	loader.visitedDocuments[uri] = doc
 
 	if err := unmarshal(data, doc, IncludeOrigin); err != nil {
+		delete(loader.visitedDocuments, uri) // a document that failed to load is not served from the cache later
 		return nil, err
 	}
 
 	doc.url = copyURI(location)
 
 	if err := loader.ResolveRefsIn(doc, location); err != nil {
+		delete(loader.visitedDocuments, uri)
 		return nil, err
 	}
 
